@@ -467,8 +467,6 @@ BODY_SITES = [
      '{for(size_trow=0;row<static_cast<size_t>(in.rows());++row)if(in.row(row).minCoeff()<0.0||checkDifferentSmall(in.row(row).sum(),1.0))returnfalse;returntrue;}'),
     ('isProbabilityDense3D', PC, r'bool\s+isProbability\s*\(\s*const\s+Matrix3D\s*&\s*in\s*\)\s*\{',
      '{for(constauto&m2:in)if(!isProbability(m2))returnfalse;returntrue;}'),
-    ('isProbabilitySparse', PC, r'bool\s+isProbability\s*\(\s*const\s+SparseMatrix2D\s*&\s*in\s*\)\s*\{',
-     '{for(size_trow=0;row<static_cast<size_t>(in.rows());++row)if(checkDifferentSmall(in.row(row).sum(),1.0)||checkDifferentSmall(in.row(row).cwiseAbs().sum(),1.0))returnfalse;returntrue;}'),
     ('isProbabilitySparse3D', PC, r'bool\s+isProbability\s*\(\s*const\s+SparseMatrix3D\s*&\s*in\s*\)\s*\{',
      '{for(constauto&m2:in)if(!isProbability(m2))returnfalse;returntrue;}'),
     ('isProbabilityLoop', 'include/AIToolbox/Utils/Probability.hpp', r'bool\s+isProbability\s*\(\s*const\s+size_t\s+size\s*,\s*const\s+T\s*&\s*in\s*\)\s*\{',
@@ -512,6 +510,25 @@ BODY_SITES = [
     ('coopGetExpectedReward', CM, r'double\s+CooperativeModel::getExpectedReward\s*\(\s*const\s+State\s*&\s*s\s*,\s*const\s+Action\s*&\s*a\s*,\s*const\s+State\s*&\s*\)\s*const\s*\{',
      '{returnrewards_.getValue(graph_.getS(),graph_.getA(),s,a);}'),
 ]
+
+
+# isProbability(const SparseMatrix2D &) has two recognised forms; which one the source has is exported as `sparseSignTest`
+SPARSE_ABS = ('{for(size_trow=0;row<static_cast<size_t>(in.rows());++row)if(checkDifferentSmall(in.row(row).sum(),1.0)||'
+              'checkDifferentSmall(in.row(row).cwiseAbs().sum(),1.0))returnfalse;returntrue;}')          # as first read: sum and |.|-sum
+SPARSE_SIGN = ('{for(intk=0;k<in.outerSize();++k)for(SparseMatrix2D::InnerIteratorit(in,k);it;++it)if(it.value()<0.0)returnfalse;'
+               'for(size_trow=0;row<static_cast<size_t>(in.rows());++row)if(checkDifferentSmall(in.row(row).sum(),1.0))returnfalse;returntrue;}')   # fixes/C05-2: sign of every stored value, then the sums
+
+
+def sparse_validator_form():
+    src = X.strip_comments(X.read(PC))
+    got, ln = _body_after(src, r'bool\s+isProbability\s*\(\s*const\s+SparseMatrix2D\s*&\s*in\s*\)\s*\{', PC + ': isProbabilitySparse')
+    if got == SPARSE_SIGN:
+        return True, ln
+    if got == SPARSE_ABS:
+        return False, ln
+    if os.environ.get('AITB_C06_LENIENT_SITES') == '1':
+        return bool(re.search(r'InnerIterator\w*\(in,\w+\);\w+;\+\+\w+\)if\(\w+\.value\(\)<0\.0\)returnfalse;', got)), ln
+    raise X.ExtractError(f'{PC}:{ln}: isProbabilitySparse is in neither of the two forms the Lean model knows (|.|-sum test / sign test on the stored values): {got[:200]}')
 
 
 def body_sites():
@@ -560,6 +577,8 @@ def body_sites():
 
 def gen_sites():
     sites = body_sites()
+    sign, sln = sparse_validator_form()
+    sites.insert(4, ('isProbabilitySparse', PC, sln))
     L = ['/- GENERATED by tools/extract_c06.py from the library source — do not edit. -/', 'namespace AITB.Gen.C06Sites', '',
          '/-- functions whose comment-stripped text is, today, exactly the text the Lean model (AITB.Model.ModelState: tolerance helpers and the',
          '    isProbability family; AITB.Model.CoopDyn: DDN row ids, dynamics, rewards) was written from: (name, file, line).',
@@ -567,7 +586,9 @@ def gen_sites():
          'def asModelled : List (String × String × Nat) := [']
     for i, (n, rel, ln) in enumerate(sites):
         L.append(f'  ("{n}", "{rel}", {ln})' + (',' if i + 1 < len(sites) else ''))
-    L += [']', '', 'end AITB.Gen.C06Sites', '']
+    L += [']', '', f'/-- {PC}:{sln}: `isProbability(const SparseMatrix2D &)` rejects every negative STORED value and then tests the row sums',
+          '    (true: the form after fixes/C05-2; false: the form as first read — row sum and sum of absolute values both within the tolerance of 1) -/',
+          f'def sparseSignTest : Bool := {"true" if sign else "false"}', '', 'end AITB.Gen.C06Sites', '']
     X.write_if_changed('C06Sites', '\n'.join(L))
 
 
